@@ -1,6 +1,8 @@
 """C03 — strict mode accepts an input only if every size field is exact; earliest, fully described error."""
 from checks import decoder_units as D
 from checks.decoder_common import run_property
+
+SEED = [0]
 from checks.common import layout
 
 
@@ -12,7 +14,7 @@ def jobs(tier):
     js += [(W.unit_tpm2b, (n, "strict")) for n in sorted(L0["tpm2b"])]
     js += [(W.unit_array, (e, "strict", True)) for e in ("TPMS_AUTH_COMMAND", "TPMS_AUTH_RESPONSE")]
     js += [j for j in D.g_frames(m)]
-    return js
+    return js + D.g_crosscheck(tier, SEED[0], only_frames=True)
 
 
 def keep(name, ob):
@@ -20,6 +22,7 @@ def keep(name, ob):
 
 
 def run(tier, seed, only=None):
+    SEED[0] = seed
     from checks.replay_decoder import replayer
     return run_property("C03", tier, seed, jobs(tier), keep,
                         "region contracts (set_constraint / bytes_parsed / assert_done / consume_bytes) proved by inlining the real code over symbolic counters and every state combination of up to 2 (thorough: 3) enclosing regions; region owners (TPM2B, byte-sized list, command, response) arm the right region from the right byte, keep it live exactly over the governed bytes and close it right after; error records carry path, limit, count, violator and excess as symbolic terms equal to the spec's",
